@@ -160,11 +160,11 @@ def concatenate(arrays, axis=0):
 
     check_consistent_fill_value(arrays)
 
+    arrays = [x if isinstance(x, COO) else COO(x) for x in arrays]
     if axis is None:
         axis = 0
         arrays = [x.flatten() for x in arrays]
 
-    arrays = [x if isinstance(x, COO) else COO(x) for x in arrays]
     axis = normalize_axis(axis, arrays[0].ndim)
     if not all(
         x.ndim == arrays[0].ndim and x.shape[ax] == arrays[0].shape[ax]
